@@ -120,9 +120,9 @@ Definition check_C15 (pre : State) (o : Op) (c : Z) (post : State) : list Z :=
          (* staked total, custody and the user's balance of the staked denom do not move *)
          clause 7 (staked_total post d =? staked_total pre d)
          ++ clause 8 (custody post d =? custody pre d)
-         (* nothing is paid out of custody; a reward payout in the same denom comes from the pool *)
-         ++ clause 9 ((d =? BOND_DENOM) || (bal post del d - bal pre del d =? bal pre ACC_REWARDS d - bal post ACC_REWARDS d)
-                      || negb (custody post d =? custody pre d))
+         (* nothing is taken from or paid to the user out of custody (a reward payout in the
+            same denom, from the pool, may only raise the balance) *)
+         ++ clause 9 ((d =? BOND_DENOM) || (bal pre del d <=? bal post del d))
          ++ clause 10 (kmem (redels post) [del; d; dst; now pre + unbonding_time pre])
          (* the onward hop out of src must not have been pending *)
          ++ clause 11 (negb (has_redelegation pre del src d))
@@ -237,7 +237,9 @@ Definition check_C17 (pre : State) (o : Op) (c : Z) (post : State) : list Z :=
 Definition check_C08 (pre : State) (o : Op) (c : Z) (post : State) : list Z :=
   match o with
   | OHookSlash v f =>
-    if (0 <? f) && (f <=? ONE) then clause 1 (c =? R_OK) ++ clause 2 (negb (c =? R_OK) || flag post) else []
+    (* for every existing validator, with or without alliance stake *)
+    if (0 <? f) && (f <=? ONE) && kmem (svals pre) [v]
+    then clause 1 (c =? R_OK) ++ clause 2 (negb (c =? R_OK) || flag post) else []
   | _ => []
   end.
 
